@@ -13,7 +13,7 @@ ID = 'C18'
 
 MANIFEST = {
     'engine': 'symx',
-    'text': 'Bounded symbolic model checking of the real task_summary source (outrank_task_result_summary and every function it calls) on a list-backed pandas stand-in: every score of pairwise_ranks.tsv is a FREE REAL variable, feature names are chosen by the solver from an adversarial pool built with the pipeline\'s own naming (annotated names, interaction names, a plain name containing the letters AND), the heuristic name (MI-numba-randomized, AMI, max-value-coverage) and the interaction order (1..3, not necessarily the arity of the interaction names) are per job. On every path z3 shows: each feature scored against the label appears once, with the median of exactly those scores (order-statistics characterisation), in descending order; for MI heuristics the emitted value is the affine min-max image (best 1, worst 0, order preserved) whenever two medians differ; the aggregated table lists exactly the constituents of interaction features with the median of the emitted scores of the interactions containing them. Each summary of the name-symbolic condition is preceded by a summary of the same table with another label column in the same process (history).',
+    'text': 'Bounded symbolic model checking of the real task_summary source (outrank_task_result_summary and every function it calls) on a list-backed pandas stand-in: every score of pairwise_ranks.tsv is a FREE REAL variable, feature names are chosen by the solver from an adversarial pool built with the pipeline\'s own naming (annotated names, interaction names, a plain name containing the letters AND), the heuristic name (MI-numba-randomized, AMI, max-value-coverage) and the interaction order (1..3, not necessarily the arity of the interaction names) are per job. On every path z3 shows: each feature scored against the label appears once, with the median of exactly those scores (order-statistics characterisation), in descending order; for MI heuristics the emitted value is the affine min-max image (best 1, worst 0, order preserved) whenever two medians differ; the aggregated table lists exactly the constituents of interaction features with the median of the emitted scores of the interactions containing them. Each summary of the name-symbolic condition is preceded by a summary of the same table with another label column in the same process (history). Heuristic names include AMI (contains MI without starting with it) and the interaction order may differ from the arity of the interaction names in the table (order 3 over pair names).',
     'note': 'Tables of <=3 triplet rows (quick) / 4 (thorough); exact reals; the quotient of the min-max map is a fresh real constrained by t*(max-min) = x-min (small nonlinear constraint); pandas replaced by the sympd stand-in (row order preserved, groupby keys sorted, stable sorts); file I/O stubbed; the all-equal case (division by zero) is outside the statement.',
     'technique': 'symbolic execution of the real Python source with z3 (scores as free reals, sorting by solver-decided comparisons)',
 }
